@@ -25,6 +25,7 @@ type PESpec struct {
 	Secs     []PESecSpec `json:"secs"`
 	Trailing int         `json:"trailing"`
 	Fill     uint64      `json:"fill"`
+	Aligned  int         `json:"aligned,omitempty"` // a boundary of the hashed ranges was moved onto a multiple of this
 }
 
 // ImgSpec names an image inside a trace.
@@ -96,7 +97,56 @@ func genPESpec(r *R) *PESpec {
 	if r.Chance(1, 2) {
 		s.Trailing = r.Range(1, 64)
 	}
+	if r.Chance(1, 5) {
+		alignPESpec(r, s)
+	}
 	return s
+}
+
+// alignPESpec moves one boundary between the hashed ranges of the image (the CheckSum field, the certificate-table
+// directory entry, the end of the headers, the end of a section, the end of the file) onto a round offset of the hashed
+// byte stream — where the block-wise readers of the standard library (512 B, 4 KiB, 32 KiB buffers) start their reads.
+func alignPESpec(r *R, s *PESpec) {
+	T := Pick(r, []int{512, 4096, 8192, 32768, 32768, 65536})
+	optBase := 96
+	if s.PE32Plus {
+		optBase = 112
+	}
+	switch r.Intn(5) {
+	case 0: // CheckSum at stream offset T (nothing is skipped before it)
+		if T-88 >= 0x40 {
+			s.Lfanew = T - 88
+		}
+	case 1: // directory entry 4 at stream offset T (the four CheckSum bytes are skipped before it)
+		if l := T + 4 - 24 - optBase - 32; l >= 0x40 {
+			s.Lfanew = l
+		}
+	case 2: // end of the headers at stream offset T (12 bytes skipped before it)
+		hdrEnd := s.Lfanew + 24 + optBase + 8*s.NumDirs + 40*len(s.Secs)
+		if T+12 >= hdrEnd {
+			s.Slack = T + 12 - hdrEnd
+		}
+	case 3: // end of the first section in file order at stream offset k*T
+		for i := range s.Secs {
+			if s.Secs[i].FilePos == 0 {
+				hdrEnd := s.Lfanew + 24 + optBase + 8*s.NumDirs + 40*len(s.Secs)
+				soh := hdrEnd + s.Slack
+				if s.Slack < 0 {
+					soh = (hdrEnd + 0x1ff) &^ 0x1ff
+				}
+				start := soh + s.Secs[i].Gap
+				want := T + 12
+				for want <= start {
+					want += T
+				}
+				s.Secs[i].Size = want - start
+				s.Secs[i].VirtSize = s.Secs[i].Size
+			}
+		}
+	case 4: // a large DOS stub and nothing else special: every later boundary moves behind the first 32 KiB block
+		s.Lfanew = 8 * r.Range(0x1000, 0x2100)
+	}
+	s.Aligned = T
 }
 
 // buildPE lays the image out.
